@@ -5,6 +5,7 @@
 package c19
 
 import (
+	"time"
 	"encoding/json"
 	"errors"
 	"fmt"
@@ -435,6 +436,44 @@ func play(sc *scen) (tr []string) {
 			})
 			say("  callback ran %d times", rec.Calls)
 		}
+	case "timenow":
+		// time.Now is what the logger itself calls for every line: mocking it, in each of the documented ways, must neither recurse
+		// nor behave differently with logging on
+		date := time.Date(2020, 2, 3, 4, 5, 6, 0, time.UTC)
+		ways := []string{"Func.Return", "Func.Apply", "Pkg(time).ExportFunc(Now).Apply", "Pkg(time).ExportFunc(Now).As.Return"}
+		way := ways[sc.K%len(ways)]
+		n := 0
+		cb := func() time.Time {
+			n++
+			if n > 50 { // a runaway recursion is cut here so that it is reported, not a stack overflow
+				mocker.CloseTrace()
+				mocker.CloseDebug()
+			}
+			return date
+		}
+		var got time.Time
+		pv := guard(func() {
+			switch way {
+			case "Func.Return":
+				b.Func(time.Now).Return(date)
+			case "Func.Apply":
+				b.Func(time.Now).Apply(cb)
+			case "Pkg(time).ExportFunc(Now).Apply":
+				b.Pkg("time").ExportFunc("Now").Apply(cb)
+			default:
+				b.Pkg("time").ExportFunc("Now").As(func() time.Time { return time.Time{} }).Return(date)
+			}
+			got = time.Now()
+			b.Reset()
+		})
+		if pv != nil {
+			b.Reset()
+			say("time.Now mocked by %s: panic %v", way, pv)
+			break
+		}
+		// (the logger is itself a caller of time.Now, so with logging on the callback legitimately runs a few more times than the
+		// program's one call; what is compared is the program's result and that the number of runs stays small)
+		say("time.Now mocked by %s -> %v, callback runs bounded: %v", way, got.Equal(date), n <= 50)
 	case "text":
 		// long, multi-byte, invalid and control-character text as arguments and results (whatever the log does to render or
 		// shorten it stays in the log)
@@ -602,7 +641,7 @@ func TestVerifC19(t *testing.T) {
 	textImg = vkit.SnapshotText()
 	p := &vkit.Prop{ID: "C19", Unit: "scenarios", Journal: true, New: func() interface{} { return &scen{} },
 		Gen: func(rt *rapid.T) interface{} {
-			sc := &scen{Kind: rapid.SampledFrom([]string{"fn", "fn", "variadic", "method", "iface", "panic", "hostile", "hostile", "hostile2", "hostile2", "reapply", "reapply", "text", "text", "origin", "origin"}).Draw(rt, "kind"),
+			sc := &scen{Kind: rapid.SampledFrom([]string{"fn", "fn", "variadic", "method", "iface", "panic", "hostile", "hostile", "hostile2", "hostile2", "reapply", "reapply", "text", "text", "origin", "origin", "timenow"}).Draw(rt, "kind"),
 				K: rapid.IntRange(0, 119).Draw(rt, "k")}
 			n := rapid.IntRange(1, 6).Draw(rt, "ncodes")
 			for i := 0; i < n; i++ {
